@@ -410,8 +410,17 @@ def _int_options(prog: Program) -> tuple[set[str], dict[str, set[str]]]:
     for ref in prog.all_functions():
         ps = set()
         a = ref.node.args
+        defaults = dict(zip([x.arg for x in (a.posonlyargs + a.args)][len(a.posonlyargs + a.args) - len(a.defaults):], a.defaults))
+        defaults.update({x.arg: d for x, d in zip(a.kwonlyargs, a.kw_defaults) if d is not None})
         for arg in a.posonlyargs + a.args + a.kwonlyargs:
-            if arg.annotation is not None and ast.unparse(arg.annotation).replace(" ", "") in ("int|None", "Optional[int]", "None|int"):
+            ann = ast.unparse(arg.annotation).replace(" ", "") if arg.annotation is not None else ""
+            if ann in ("int|None", "Optional[int]", "None|int"):
+                ps.add(arg.arg)
+            # an optional selection / number (`Iterable[..] | None = None`, `list[..] | None = None`, `float | None = None`): None means "not given",
+            # an EMPTY selection or 0.0 is a value of its own
+            d = defaults.get(arg.arg)
+            if (d is None or (isinstance(d, ast.Constant) and d.value is None)) and ("|None" in ann or ann.startswith("Optional[") or ann.startswith("None|")) and \
+                    any(w in ann for w in ("Iterable", "Iterator", "Sequence", "Collection", "list", "List", "set", "Set", "tuple", "Tuple", "dict", "Dict", "float", "ndarray", "ArrayLike", "Values")):
                 ps.add(arg.arg)
         if ps:
             params[ref.qual] = ps
@@ -452,8 +461,9 @@ def rule_truthiness_defaults(prog: Program, col: Collector) -> None:
                     seen.add(id(f[3]) if len(f) > 3 else repr(f[1]))
                     n += 1
                     bad += 1
-                    col.violation(ref.where(ev.node), ref.short, f"truthiness-test:{short(f[1], 30)}", f"branch on the truth value of the integer option {short(f[1], 40)}",
-                                  "0 is a legal value of an integer option: `if not limit` / `if seed` confuse it with None")
+                    col.violation(ref.where(ev.node), ref.short, f"truthiness-test:{short(f[1], 30)}", f"branch on the truth value of the optional argument / option {short(f[1], 40)}",
+                                  "0 is a legal value of an integer option and an empty selection is a selection: `if not limit` / `if seed` / `if not coalitions` confuse them with None "
+                                  "(an empty list of coalitions then stands for ALL coalitions)")
     if bad == 0:
         col.ok("-", "scope", f"no truthiness test or `or`-default on the integer options {sorted(fields)[:6]}... or on int | None parameters")
 
